@@ -62,7 +62,7 @@ def check_lines(res, stream, lines):
             res.violate(stream, "not idempotent", {"line": l}, {"once": i, "twice": i2}, {"clause": "idempotent"})
 
 
-def cli_case(ctx, res, texts, use_stdin, as_filter=False):
+def cli_case(ctx, res, texts, use_stdin, as_filter=False, dash=None):
     """files and stdin through PrettierCli.run; line count/order and content"""
     from moto_prettier.prettier import PrettierCli
     st = res.stream("cli")
@@ -71,22 +71,25 @@ def cli_case(ctx, res, texts, use_stdin, as_filter=False):
     if as_filter:
         texts = texts[:1]       # no file argument at all: a filter of standard input
         use_stdin = True
+    # standard input is named by "-" at any place among the files (its lines come out where it stands)
+    dash_at = (dash if dash is not None else len(texts) - 1 if len(texts[0]) % 3 else len(texts[0]) % len(texts)) if use_stdin and not as_filter else None
     for k, t in enumerate(texts):
         if as_filter:
             break
-        if use_stdin and k == len(texts) - 1:
+        if use_stdin and k == dash_at:
             argv.append("-")
         else:
             p = os.path.join(d, f"f{k}.txt")
             with open(p, "w", newline="") as f:
                 f.write(t)
             argv.append(p)
-    stdin_text = texts[-1] if use_stdin else None
+    stdin_text = (texts[0] if as_filter else texts[dash_at]) if use_stdin else None
     if use_stdin and stdin_text is not None:
         # sys.stdin iteration sees text after universal-newline translation
         stdin_text = stdin_text.replace("\r\n", "\n").replace("\r", "\n")
     status, out = run_cli(PrettierCli().run, argv, stdin_text=stdin_text)
-    model = drv([f"prettier {cps(t)}" for t in texts])
+    texts_in_order = texts
+    model = drv([f"prettier {cps(t)}" for t in texts_in_order])
     mo = "".join(uncps(x) + "\n" for m in model if m != "" for x in m.split(";"))
     st.see((tuple(texts), use_stdin))
     st.compared += 1
@@ -98,7 +101,7 @@ def cli_case(ctx, res, texts, use_stdin, as_filter=False):
                for t in texts)
     # the property itself on what the tool printed: every input line through the character automaton of the specification
     in_lines = []
-    for t in texts:
+    for t in texts_in_order:
         u = t.replace("\r\n", "\n").replace("\r", "\n").split("\n")
         if u and u[-1] == "":
             u.pop()
@@ -153,6 +156,42 @@ def run(ctx, res):
         r = ctx.rng.random()
         cli_case(ctx, res, texts, use_stdin=r < 0.3, as_filter=0.3 <= r < 0.5)
     res.sample({"cli_texts": texts})
+    for dash in (0, 1, 2):
+        cli_case(ctx, res, ["first a\n", "second \"b\n", "third c"], use_stdin=True, dash=dash)
+    cli_case(ctx, res, ["only x\n", "y\n"], use_stdin=True, dash=0)
+    # a big file (a reader with a size limit or a buffer would drop or cut lines), alone and between two others with "-" in the middle
+    big = "".join(("%d print \"line %d\";x%d:goto %d\n" % (10 * k, k, k % 97, k)) if k % 3 else ("%d rem \"unterminated %d\n" % (10 * k, k)) for k in range(1, (1500 if not ctx.thorough else 20000)))
+    cli_case(ctx, res, [big], use_stdin=False)
+    cli_case(ctx, res, ["a\n", "xy" + big, "z\n"], use_stdin=True)
+    # letters beyond ASCII outside literals (accented REM text, Greek or Cyrillic identifiers): upper-cased like the others, one
+    # character for one (letters whose upper case is longer — the German sharp s — are left out); oracle only: the model's
+    # alphabet is ASCII (S3), the reference here is the quote automaton with Python's own one-to-one upper-casing
+    def ref_line(line):
+        out, lit = [], False
+        for ch in line:
+            if ch == '"':
+                lit = not lit
+                out.append(ch)
+            else:
+                out.append(ch if lit or len(ch.upper()) != 1 else ch.upper())
+        return "".join(out)
+    stx = res.stream("beyond_ascii")
+    beyond = ["10 rem \u00e9crit \u00e0 la main", "20 pr\u00e9nom$=\"\u00e9l\u00e9phant\":print pr\u00e9nom$", "30 \u03b1\u03b2=\u03b3+1:rem \u0436\u0443\u043a \"\u0436\u0443\u043a\"", "40 \u00f1and\u00fa \"unterminated \u00f1"]
+    for k in range(ctx.n(12, 100)):
+        ls = [ctx.rng.choice(beyond) + ctx.rng.choice(["", " ", "  x"]) for _ in range(ctx.rng.choice([1, 2, 4]))]
+        text = "\n".join(ls) + "\n"
+        from moto_prettier.prettier import PrettierCli
+        d = ctx.fresh_dir()
+        as_file = k % 2 == 0
+        if as_file:
+            with open(os.path.join(d, "u.txt"), "w", encoding="utf-8") as f:
+                f.write(text)
+        status, out = run_cli(PrettierCli().run, [os.path.join(d, "u.txt")] if as_file else [], stdin_text=None if as_file else text)
+        want = "".join(ref_line(l) + "\n" for l in ls)
+        stx.see((text, as_file), nontrivial=True)
+        stx.unmodelled += 1
+        if status != "ok0" or out != want:
+            res.violate("beyond_ascii", "output differs from the quote automaton", {"text": text, "file": as_file}, {"impl": [status, out[:300]], "spec": want[:300]}, {"clause": "automaton_beyond_ascii"})
     # files in UTF-8 with letters beyond ASCII inside string literals (reproduced unchanged, also when the text comes from a
     # file), indented lines and trailing blanks (every position kept), whole words — keywords, REM lines — outside literals
     words = ["rem", "print", "goto", "a", "B1", "x$", "10", "20", "for", "next", "rem written by me", "Rem"]
